@@ -46,7 +46,7 @@ theorem lookup_of_mem {κ' β} [BEq κ'] [LawfulBEq κ'] (l : List (κ' × β)) 
     obtain ⟨k', v'⟩ := p
     simp only [List.map_cons, List.nodup_cons] at hnd
     rcases List.mem_cons.mp h with e | h'
-    · cases e; simp [List.lookup_cons]
+    · cases e; simp
     · have hne : k ≠ k' := by
         intro e; subst e
         exact hnd.1 (List.mem_map_of_mem (f := (·.1)) h')
